@@ -1,8 +1,15 @@
 /-
-  Hand-written model of the resource-facing endpoints (pkg/op/userinfo.go, token_intospection.go,
-  token_revocation.go, session.go and their LegacyServer twins) over the reference storage's token
-  table.  Presented token strings are treated ADVERSARIALLY: what `Crypto.Decrypt` makes of an
-  attacker-supplied string is an arbitrary oracle answer.  Tied to the code by the C08 stream.
+  Model types of the resource-facing endpoints (pkg/op/userinfo.go, token_intospection.go,
+  token_revocation.go, token_exchange.go getTokenIDAndClaims, op.go Provider.AccessTokenVerifier and the
+  LegacyServer twins): what the REGENERATED functions of Generated/Resource.lean (namespace `GenRes`) read.
+
+  Hand-written here (tied by the C08 stream, named in the trusted base):
+  * `Res.St` and its methods — the reference storage's access- and refresh-token tables (twin of
+    harness/internal/refstore/tokens.go): SetUserinfoFromToken, SetIntrospectionFromToken, GetRefreshTokenInfo,
+    RevokeToken, TokenRequestByRefreshToken, TerminateSession, rotation;
+  * what `Crypto.Decrypt`, go-jose / `oidc.ParseToken` and the `jti` claim make of a presented string are ORACLES
+    (`ResProvider.decrypt / tokenOf / jtiOf`): the theorems hold for ANY such functions (AES-CFB is malleable);
+  * client authentication at the introspection / revocation endpoints is an input (the authenticated caller).
 -/
 import OidcModel.Model.OP
 
@@ -17,118 +24,284 @@ structure Tok where
   refresh : String := ""          -- refresh token issued together with it ("" = none)
   expired : Bool := false
   revoked : Bool := false
+  gone : Bool := false            -- removed from the table (rotation of its refresh token)
   deriving DecidableEq, Repr, Inhabited
 
-def Tok.live (t : Tok) : Bool := !t.expired && !t.revoked
+def Tok.live (t : Tok) : Bool := !t.expired && !t.revoked && !t.gone
+
+/-- a refresh token as the reference storage knows it (`token` = the string handed to the client) -/
+structure RTok where
+  token : String
+  client : String
+  subject : String
+  access : String := ""           -- id of the access token issued together with it
+  expired : Bool := false
+  gone : Bool := false            -- removed from the table (revoked, rotated, session terminated)
+  deriving DecidableEq, Repr, Inhabited
+
+def RTok.live (r : RTok) : Bool := !r.expired && !r.gone
 
 structure St where
   toks : List Tok := []
-  clients : List OPClient := []
+  rtoks : List RTok := []
   deriving Repr, Inhabited
 
-/-- what the provider makes of a presented access-token string: `Decrypt` succeeded with this
-    plaintext, or the string verified as one of its own JWT access tokens, or neither -/
-inductive Presented
-  | decrypts (plain : String)              -- ANY plaintext (AES-CFB is malleable)
-  | jwt (jti subject : String)             -- signature, issuer and expiry verified
-  | nothing
-  deriving DecidableEq, Repr
+/-- a token the endpoints may honour: an access token (by id) or a refresh token (by its string) -/
+inductive Ref
+  | at (id : String)
+  | rt (token : String)
+  deriving DecidableEq, Repr, Inhabited
 
-/-- `strings.Split(s, ":")` yielding exactly two parts (structural, so the kernel can evaluate it) -/
-def splitTwo (s : String) : Option (String × String) :=
-  match s.toList.span (· != ':') with
-  | (a, _ :: b) => if b.contains ':' then none else some (String.ofList a, String.ofList b)
-  | _ => none
+/-- the table entries (what `s.tokens[id]` / `s.refresh[token]` find) -/
+def St.lookup (s : St) (id : String) : Option Tok := s.toks.find? fun t => t.id == id && !t.gone
+def St.lookupR (s : St) (token : String) : Option RTok := s.rtoks.find? fun r => r.token == token && !r.gone
+def St.liveTok (s : St) (id : String) : Option Tok := (s.lookup id).filter (·.live)
+def St.liveR (s : St) (token : String) : Option RTok := (s.lookupR token).filter (·.live)
 
-/-- `getTokenIDAndSubject`: the plaintext must split on ':' into exactly two parts -/
-def resolve (p : Presented) : Option (String × String) :=
-  match p with
-  | .decrypts plain => splitTwo plain
-  | .jwt jti sub => some (jti, sub)
-  | .nothing => none
-
-def lookup (s : St) (id : String) : Option Tok := s.toks.find? (·.id == id)
-def liveTok (s : St) (id : String) : Option Tok := (lookup s id).filter (·.live)
-
-inductive UserinfoResp | claims (subject : String) | unauthorized | forbidden
-  deriving DecidableEq, Repr
-/-- Userinfo / LegacyServer.UserInfo -/
-def userinfo (s : St) (p : Presented) : UserinfoResp :=
-  match resolve p with
-  | none => .unauthorized
-  | some (id, _) =>
-    match liveTok s id with
-    | some t => .claims t.subject
-    | none => .forbidden
-
-inductive IntroResp | active (t : Tok) | inactive | unauthorized
-  deriving DecidableEq, Repr
-/-- Introspect: the caller is already authenticated as `caller` (none: authentication failed) -/
-def introspect (s : St) (caller : Option String) (p : Presented) : IntroResp :=
-  match caller with
-  | none => .unauthorized
-  | some cid =>
-    match resolve p with
-    | none => .inactive
-    | some (id, _) =>
-      match liveTok s id with
-      | some t => if t.audience.contains cid then .active t else .inactive
-      | none => .inactive
-
-inductive RevokeResp | ok | refused
-  deriving DecidableEq, Repr
-/-- Revoke (access tokens): the storage refuses a foreign client; unknown tokens are fine -/
-def revoke (s : St) (caller : Option String) (p : Presented) : St × RevokeResp :=
-  match caller with
-  | none => (s, .refused)
-  | some cid =>
-    match resolve p with
-    | none => (s, .ok)
-    | some (id, _) =>
-      match lookup s id with
-      | none => (s, .ok)
-      | some t =>
-        if t.client != cid then (s, .refused)
-        else ({ s with toks := s.toks.map fun x => if x.id == id then { x with revoked := true } else x }, .ok)
-
-/-- TerminateSession(subject, client): every token of that session dies -/
-def terminate (s : St) (subject client : String) : St :=
-  { s with toks := s.toks.map fun x => if x.subject == subject && x.client == client then { x with revoked := true } else x }
-
-/-- is a subject / actor access token acceptable for token exchange (framework + storage policy) -/
-def exchangeAccepts (s : St) (p : Presented) : Bool :=
-  match resolve p with
-  | none => false
-  | some (id, _) => (liveTok s id).isSome
-
-inductive Op
-  | issue (t : Tok)
-  | expire (id : String)
-  | userinfo (p : Presented)
-  | introspect (caller : Option String) (p : Presented)
-  | revoke (caller : Option String) (p : Presented)
-  | endSession (subject client : String)
-  | exchange (p : Presented)
-  deriving Repr
-
-/-- the honoured token id of an operation's outcome (none: nothing was honoured) -/
-def step (s : St) : Op → St × Option String
-  | .issue t =>
-    -- token ids are unique in the storage (fresh counters): an id is never issued twice
-    if (lookup s t.id).isSome then (s, none)
-    else ({ s with toks := s.toks ++ [{ t with expired := false, revoked := false }] }, none)
-  | .expire id => ({ s with toks := s.toks.map fun x => if x.id == id then { x with expired := true } else x }, none)
-  | .userinfo p => (s, match userinfo s p with | .claims _ => (resolve p).map (·.1) | _ => none)
-  | .introspect c p => (s, match introspect s c p with | .active t => some t.id | _ => none)
-  | .revoke c p => ((revoke s c p).1, none)
-  | .endSession sub cl => (terminate s sub cl, none)
-  | .exchange p => (s, if exchangeAccepts s p then (resolve p).map (·.1) else none)
-
-def run (s : St) : List Op → St × List (Option String)
-  | [] => (s, [])
-  | op :: rest =>
-    let (s1, o) := step s op
-    let (s2, os) := run s1 rest
-    (s2, o :: os)
+def killTok (id : String) (x : Tok) : Tok := if x.id == id then { x with revoked := true } else x
+def dropR (token : String) (x : RTok) : RTok := if x.token == token then { x with gone := true } else x
 
 end Res
+
+/-- `oidc.UserInfo` as far as C08 looks at it; `tokenID` = the storage record it was filled from (ghost field) -/
+structure ResUserInfo where
+  Subject : String := ""
+  tokenID : String := ""
+  deriving DecidableEq, Repr, Inhabited
+
+/-- `oidc.IntrospectionResponse`; the zero value is the inactive answer -/
+structure ResIntrospection where
+  Active : Bool := false
+  Subject : String := ""
+  ClientID : String := ""
+  Audience : List String := []
+  tokenID : String := ""          -- ghost field: the storage record it was filled from
+  deriving DecidableEq, Repr, Inhabited
+
+namespace Res.St
+
+/-- `Storage.SetUserinfoFromToken(ctx, userinfo, tokenID, subject, origin)`: the token must be known, unrevoked, unexpired -/
+def SetUserinfoFromToken (s : St) (tokenID _subject : String) : Go.R ResUserInfo :=
+  match s.liveTok tokenID with
+  | some t => .ok { Subject := t.subject, tokenID := t.id }
+  | none => .error "token is invalid"
+
+/-- `Storage.SetIntrospectionFromToken(ctx, resp, tokenID, subject, clientID)`: live token whose audience contains the caller -/
+def SetIntrospectionFromToken (s : St) (resp : ResIntrospection) (tokenID _subject clientID : String) : Go.R ResIntrospection :=
+  match s.liveTok tokenID with
+  | some t =>
+    if t.audience.contains clientID then
+      .ok { resp with Active := true, Subject := t.subject, ClientID := t.client, Audience := t.audience, tokenID := t.id }
+    else .error "token is not valid for this client"
+  | none => .error "token is invalid"
+
+/-- `Storage.GetRefreshTokenInfo(ctx, clientID, token)` = (userID, tokenID) -/
+def GetRefreshTokenInfo (s : St) (_clientID token : String) : Go.R (String × String) :=
+  match s.lookupR token with
+  | some r => .ok (r.subject, r.token)
+  | none => .error "ErrInvalidRefreshToken"
+
+/-- `Storage.RevokeToken(ctx, tokenOrTokenID, userID, clientID)`: an access token id first, then a refresh token
+    (which takes its access token with it); a foreign client is refused; unknown = nothing to do -/
+def RevokeToken (s : St) (tokenOrID _userID clientID : String) : St × Go.R Unit :=
+  match s.lookup tokenOrID with
+  | some t =>
+    if t.client != clientID then (s, .error "ErrInvalidClient")
+    else ({ s with toks := s.toks.map (killTok tokenOrID) }, .ok ())
+  | none =>
+    match s.lookupR tokenOrID with
+    | none => (s, .ok ())
+    | some r =>
+      if r.client != clientID then (s, .error "ErrInvalidClient")
+      else ({ toks := s.toks.map (killTok r.access), rtoks := s.rtoks.map (dropR tokenOrID) }, .ok ())
+
+/-- `Storage.TokenRequestByRefreshToken`: known and unexpired -/
+def TokenRequestByRefreshToken (s : St) (token : String) : Go.R RTok :=
+  match s.liveR token with
+  | some r => .ok r
+  | none => .error "ErrInvalidRefreshToken"
+
+/-- `Storage.TerminateSession(userID, clientID)`: every token of that session dies -/
+def TerminateSession (s : St) (subject client : String) : St :=
+  { toks := s.toks.map fun x => if x.subject == subject && x.client == client then { x with revoked := true } else x,
+    rtoks := s.rtoks.map fun x => if x.subject == subject && x.client == client then { x with gone := true } else x }
+
+/-- rotation at the refresh grant: the presented refresh token and its access token leave the tables -/
+def rotate (s : St) (token : String) : St :=
+  match s.lookupR token with
+  | none => s
+  | some r =>
+    { toks := s.toks.map fun x => if x.id == r.access then { x with gone := true } else x,
+      rtoks := s.rtoks.map (dropR token) }
+
+end Res.St
+
+/-- the part of `op.Provider` its `AccessTokenVerifier(ctx)` method reads -/
+structure ResATProvider where
+  accessTokenKeySet : KeySet := {}                 -- `&OpenIDKeySet{Storage}`: the published keys
+  accessTokenVerifierOpts : List String := []      -- `WithSupportedAccessTokenSigningAlgorithms` ([] = none given)
+
+structure ResCrypto where
+  Decrypt : String → Go.R String
+
+/-- the decoded form of an introspection / revocation request (`oidc.IntrospectionRequest`, the anonymous struct of
+    `ParseTokenRevocationRequest`) -/
+structure ResForm where
+  Token : String := ""
+  TokenTypeHint : String := ""
+  ClientID : String := ""
+  ClientSecret : String := ""
+  ClientAssertion : String := ""
+  ClientAssertionType : String := ""
+  undecodable : Bool := false          -- input: the schema decoder rejects the form
+  deriving DecidableEq, Repr, Inhabited
+
+structure ResDecoder where
+  Decode : ResForm → Go.R ResForm := fun f => if f.undecodable then .error "schema: decode error" else .ok f
+
+/-- the HTTP request as the two request parsers see it; everything net/http, net/url, go-jose and `ClientIDFromRequest` compute from it is an input -/
+structure ResHttpReq where
+  Form : ResForm := {}
+  parseFormFails : Bool := false                                          -- `r.ParseForm()`
+  basic : Option (String × String) := none                                -- `r.BasicAuth()`: user, password as sent (still percent-encoded)
+  queryUnescape : String → Go.R String := fun s => .ok s                  -- `url.QueryUnescape`
+  assertionToken : Token := default                                       -- the serialized token `client_assertion` is
+  identified : Go.R (String × Bool) := .error "ErrInvalidClient"           -- `ClientIDFromRequest(r, p)`: (client id, authenticated)
+
+namespace ResHttpReq
+def ParseForm (r : ResHttpReq) : Go.R Unit := if r.parseFormFails then .error "parse form" else .ok ()
+def BasicAuth (r : ResHttpReq) : String × String × Bool :=
+  match r.basic with
+  | some (u, p) => (u, p, true)
+  | none => ("", "", false)
+end ResHttpReq
+
+/-- the provider as the resource endpoints see it while serving ONE request (`UserinfoProvider`, `Introspector`, `Revoker`) -/
+structure ResProvider where
+  decrypt : String → Go.R String := fun _ => .error "decrypt"   -- oracle: `Crypto().Decrypt` (ANY function)
+  tokenOf : String → Token := fun _ => default                  -- oracle: the serialized token a string is (go-jose / ParseToken)
+  jtiOf : String → String := fun _ => ""                        -- oracle: the `jti` claim of its payload
+  verifier : Verifier := {}                                     -- `AccessTokenVerifier(ctx)` for THIS request
+  store : Res.St := {}
+  -- what the request parsers read (client registrations, supported authentication methods, the JWT-profile verifier of THIS request)
+  clientStore : Store := {}
+  postSupported : Bool := false
+  pkjwtSupported : Bool := false
+  is_RevokerJWTProfile : Bool := true                           -- *op.Provider implements RevokerJWTProfile
+  jwtProfileVerifier : JWTProfileVerifier := {}
+
+namespace ResProvider
+def Crypto (p : ResProvider) : ResCrypto := ⟨p.decrypt⟩
+def AccessTokenVerifier (p : ResProvider) : Verifier := p.verifier
+def Storage (p : ResProvider) : Res.St := p.store
+def Decoder (_ : ResProvider) : ResDecoder := {}
+def AuthMethodPostSupported (p : ResProvider) : Bool := p.postSupported
+def AuthMethodPrivateKeyJWTSupported (p : ResProvider) : Bool := p.pkjwtSupported
+def JWTProfileVerifier (p : ResProvider) : JWTProfileVerifier := p.jwtProfileVerifier
+end ResProvider
+
+/-- `*oidc.AccessTokenClaims` as far as the readers use it; `present = false` is the nil pointer -/
+structure ResATClaims where
+  JWTID : String := ""
+  Subject : String := ""
+  Issuer : String := ""
+  present : Bool := true
+  deriving DecidableEq, Repr, Inhabited
+
+def ResATClaims.none : ResATClaims := { present := false }
+
+/-- the body of a success response that carries nothing (`MarshalJSON(w, nil)`, `NewResponse(nil)`) -/
+inductive ResBody | empty
+  deriving DecidableEq, Repr, Inhabited
+
+inductive ResWrite
+  | error (err : String)        -- `RevocationRequestError(w, r, err)`
+  | json (b : ResBody)          -- `httphelper.MarshalJSON(w, nil)`
+  deriving DecidableEq, Repr, Inhabited
+
+/-- the outside world of the revocation handlers: the storage and what has been written to the ResponseWriter -/
+structure ResWorld where
+  store : Res.St := {}
+  out : List ResWrite := []
+  deriving Repr, Inhabited
+
+namespace ResWorld
+def GetRefreshTokenInfo (w : ResWorld) (clientID token : String) : Go.R (String × String) := w.store.GetRefreshTokenInfo clientID token
+def RevokeToken (w : ResWorld) (tokenOrID userID clientID : String) : ResWorld × Go.R Unit :=
+  let (s, r) := w.store.RevokeToken tokenOrID userID clientID
+  ({ w with store := s }, r)
+end ResWorld
+
+/-- request data of the legacy server's resource handlers (`oidc.UserInfoRequest`, `IntrospectionRequest`, `oidc.RevocationRequest`) -/
+structure ResReqData where
+  AccessToken : String := ""
+  Token : String := ""
+  TokenTypeHint : String := ""
+  ClientCredentials : Go.R String := .error "ErrInvalidClient"   -- input: the caller `authenticateResourceClient` establishes
+
+structure ResRequest where
+  Data : ResReqData := {}
+
+structure ResClientRequest where
+  Data : ResReqData := {}
+  Client : OPClient := {}
+
+structure ResLegacyServer where
+  provider : ResProvider
+
+/-- what a Provider-router userinfo / introspection handler writes -/
+inductive ResResp
+  | httpError (msg : String) (code : Int)           -- `http.Error`
+  | jsonError (err : String) (code : Int)           -- `httphelper.MarshalJSONWithStatus(w, err, code)`
+  | userinfo (u : ResUserInfo)                      -- `httphelper.MarshalJSON(w, info)`
+  | introspection (r : ResIntrospection)            -- `httphelper.MarshalJSON(w, response)`
+  deriving DecidableEq, Repr, Inhabited
+
+namespace Hand
+
+/-- split a character list at every occurrence of `c` (structural, so the kernel can evaluate it) -/
+def resSplitChars (c : Char) : List Char → List (List Char)
+  | [] => [[]]
+  | x :: xs =>
+    match resSplitChars c xs with
+    | [] => [[]]
+    | hd :: tl => if x == c then [] :: hd :: tl else (x :: hd) :: tl
+
+/-- `strings.Split(s, sep)` for a one-character separator -/
+def resSplit (s sep : String) : List String :=
+  match sep.toList with
+  | [c] => (resSplitChars c s.toList).map String.ofList
+  | _ => [s]
+
+def resErrorsIs (err target : String) : Bool := err == target
+
+/-- `op.NewAccessTokenVerifier(issuer, keySet, opts...)` -/
+def resNewAccessTokenVerifier (issuer : String) (keySet : KeySet) (algs : List String) : Verifier :=
+  { Issuer := issuer, KeySet := keySet, SupportedSignAlgs := algs }
+
+/-- `VerifyAccessToken[*oidc.AccessTokenClaims](ctx, token, verifier)` on the token the string denotes -/
+def resVerifyAccessToken (p : ResProvider) (f : Token → Verifier → Go.R Claims) (token : String) (v : Verifier) : Go.R ResATClaims :=
+  match f (p.tokenOf token) v with
+  | .error e => .error e
+  | .ok c => .ok { JWTID := p.jtiOf token, Subject := c.sub, Issuer := c.iss }
+
+/-- request parsing and client authentication are inputs of this model -/
+def resParseUserinfoRequest (rq : Go.R String) (_decoder : ResDecoder) : Go.R String := rq
+def resParseTokenIntrospectionRequest (rq : Go.R (String × String)) (_introspector : ResProvider) : Go.R (String × String) := rq
+def resParseTokenRevocationRequest (rq : Go.R (String × String × String)) (_revoker : ResProvider) : Go.R (String × String × String) := rq
+/-- `ClientIDFromRequest(r, p)` (pkg/op/client.go): an input of the request -/
+def resClientIDFromRequest (r : ResHttpReq) (_p : ResProvider) : Go.R (String × Bool) := r.identified
+/-- `VerifyJWTAssertion(ctx, assertion, verifier)` on the token the assertion string denotes -/
+def resVerifyJWTAssertion (r : ResHttpReq) (f : Token → JWTProfileVerifier → Go.R Claims) (_assertion : String) (v : JWTProfileVerifier) : Go.R Claims :=
+  f r.assertionToken v
+def resAuthenticateResourceClient (_s : ResLegacyServer) (cc : Go.R String) : Go.R String := cc
+
+/-- `NewStatusError(err, status)`: the status travels with the error -/
+def resNewStatusError (err : String) (code : Int) : String :=
+  (if code == 401 then "401:" else if code == 403 then "403:" else "500:") ++ err
+/-- `RevocationError(err)`: 401 for invalid_client, 500 for server_error, 400 otherwise (read off in `Res.revokeCanon`) -/
+def resRevocationError (err : String) : String := err
+def resRevocationRequestError (w : ResWorld) (err : String) : ResWorld := { w with out := w.out ++ [.error err] }
+def resMarshalJSON (w : ResWorld) (b : ResBody) : ResWorld := { w with out := w.out ++ [.json b] }
+
+end Hand
